@@ -631,7 +631,8 @@ fn gen_seq(rng: &mut Rng, good: &[u32]) -> u32 {
     match rng.below(16) {
         0 => g.wrapping_add(1),
         1 => g.wrapping_sub(1),
-        2 => *rng.pick(&[0u32, 0xffff_ffff, 0xffff_fffe, 0xffff_fffd, 1, 2]),
+        // the classic constants and the values permitted for the OTHER sweep kinds (contest delays, anchor sequence)
+        2 | 7 => *rng.pick(&[0u32, 0xffff_ffff, 0xffff_fffe, 0xffff_fffd, 1, 2, CP_DELAY as u32, HOLDER_DELAY as u32]),
         3 | 4 | 5 => g | *rng.pick(&[0x8000_0000u32, 0x0040_0000, 0x0001_0000, 0xffff_0000]),
         6 => (g & 0xffff) | ((rng.next() as u32) & 0xffff_0000),
         _ => g,
